@@ -9,6 +9,7 @@
       i ::= n | X | Y     ∘ ∈ {+, −, &, |, ^}          (stage 1: v only; stage 3: X and Y; stage 4: array elements)
       s = w | s = w ∘ w | s ∘= w      s an `unsigned short` variable; w ::= s | n ≤ 65535 | v      (stage 6)
       lv = a ∘ b ∘ c …                 chains of two or more operators grouped to the left              (stage 7)
+      lv = e    e ::= a ∘ b | (e) ∘ a | a ∘ (e)    linear expressions: one operand of every operator is atomic (stage 8)
       { S… } | if (c) S | if (c) S else S | while (c) S | do S while (c); | for (F; c; F) S   (stage 2)
       break; | continue; | if (c) break; | if (c) continue;   inside loops                    (stage 5)
       c ::= a ⋈ b | lv | !lv | c && c | c || c | !c     ⋈ ∈ {==, !=, <, >=, >, <=}; no ordered comparison with
@@ -52,12 +53,18 @@
      further operator is one `opCode` (carry set-up, identity omission, register operands through the scratch cell);
      the meaning is the left fold (`chainVal`, with the scratch writes; `chainPure` without). Part of `RStmt`, hence of
      every theorem above.
+   * stage 8 (linear expressions): nested expressions in which every operator has an atomic operand. The compound
+     operand is computed into the accumulator; `(e) ∘ a` continues on it, a commutative `a ∘ (e)` is computed as
+     `(e) ∘ a`, `a − (e)` parks the value of `e` in the scratch cell (`STA cctmp ; LDA a ; SEC ; SBC cctmp`).
+     `linVal` is the meaning with the scratch writes, `linPure` the plain value; induction over the expression tree
+     (`linCode_exec`, `linVal_pure`). Expressions with a compound operand on BOTH sides need the stack (PHA / PLA):
+     not in the fragment — the theorems compare all of memory, the stack page included.
    * `fresh_labels`: every label the generator defines is new (counter ranges), the fact behind the
      uniqueness of labels in emitted code (used again by C13).
    * `adc_after_clc`, `sbc_after_sec`, `negate_means_not`, `mirror_means_swap`: the arithmetic and
      operator-table facts the templates rest on.
   NOT covered by these theorems (covered by co-execution against CV.CSem in the check, partial):
-  nested expressions, 16-bit ++/--/shifts/comparisons/unary operators, 16-bit values in conditions, arrays of 16-bit
+  expressions with a compound operand on both sides of an operator, 16-bit ++/--/shifts/comparisons/unary operators, 16-bit values in conditions, arrays of 16-bit
   elements, subscripts that are memory operands, switch,
   calls, signed types, pointers; optimisation levels above -O0 (C02's subject).
 -/
@@ -297,6 +304,13 @@ example (L : Layout) (σ : SrcSt) :
 example : rgenText (fun _ => true) (.chain (.var "v") (.of (.const 3)) .add (.of (.var "a")) [(.sub, .x), (.bor, .of (.el "t" .y))]) =
     [(.LDA, "a"), (.CLC, ""), (.ADC, "#3"), (.SEC, ""), (.STX, "cctmp"), (.SBC, "cctmp"), (.ORA, "t,Y"), (.STA, "v")] := by decide
 example : RInFragment (.chain (.var "v") (.of (.var "a")) .add (.of (.var "b")) [(.sub, .of (.var "c"))]) = true := by decide
+/-! non-vacuity of stage 8: `v = a − ((b − (c + 1)) − t[X])` -/
+example : rgenText (fun _ => true) (.lin (.var "v") (.right (.of (.var "a")) .sub (.left (.right (.of (.var "b")) .sub
+      (.pair (.of (.var "c")) .add (.of (.const 1)))) .sub (.of (.el "t" .x))))) =
+    [(.LDA, "c"), (.CLC, ""), (.ADC, "#1"), (.STA, "cctmp"), (.LDA, "b"), (.SEC, ""), (.SBC, "cctmp"), (.SEC, ""), (.SBC, "t,X"),
+     (.STA, "cctmp"), (.LDA, "a"), (.SEC, ""), (.SBC, "cctmp"), (.STA, "v")] := by decide
+example (L : Layout) (σ : SrcSt) : linPure L σ (.right (.of (.const 10)) .sub (.pair (.of (.const 3)) .add (.of (.const 4)))) = 3 := by
+  simp [linPure, rval, val, BOp.apply]
 
 
 end CV.C01
